@@ -30,7 +30,7 @@ def c2(ctx):
 def c4(ctx):
     fwd.fwd_options(ctx, ["strict"], floor=7)
     fwd.parse_msd_strictness(ctx, floor=4)
-    fwd.fwd_kwargs(ctx, floor=8)
+    fwd.fwd_kwargs(ctx, floor=3, scope=["simfile:open", "simfile:open_with_detected_encoding", "simfile:mutate"])
     cg = callgraph(ctx)
     ctx.notes.append(f"call graph: {cg.total} call sites, {len(cg.unresolved)} unresolved ({cg.ratio():.1%} resolved)")
 
